@@ -32,15 +32,17 @@ import common
 import values
 import evalgen
 import evalref
+from props import c04dispatch
 
 ID = 'C04'
-LEAN_MODULES = ['Yaql.Props.C04']
+LEAN_MODULES = ['Yaql.Props.C04'] + c04dispatch.LEAN_MODULES
 REQUIRED_THEOREMS = ['Yaql.Props.C04.' + n for n in (
     'frame frame_root sibling_independence shadowing shadowing_let unknown_null dollar_alias lambda_binds_innermost '
     'lambda_dollar get_argFrame with_numbering closure_lexical closure_lexical_args ucall_eq no_leak_arg no_leak_lambda '
     'no_leak_callee member_maps fuel_mono empty_frame_invisible let_names_verbatim let_other_name kwarg_names_verbatim '
     'def_names_verbatim normName_inj_plain def_call_pure def_call_own_args def_calls_independent def_then_call '
-    'def_identity_faithful def_identity_injective').split()]
+    'def_identity_faithful def_identity_injective').split()] + c04dispatch.REQUIRED_THEOREMS
+generate = c04dispatch.generate          # Gen/RegistryTypes.lean: the live registry with its real parameter types
 TRUSTED = ['harness/evalref.py (plain-Python transcription of the language reference, second opinion for every case)',
            'harness/evalgen.py: the renderer AST -> yaql text (every generated text is parsed back by the engine under '
            'test and compared with the AST that goes to the model)']
@@ -723,6 +725,8 @@ def run(env, res):
     if env['replay']:
         rp = json.load(open(env['replay']))
         case = rp['case']
+        if case.get('section') == 'dispatch':
+            return c04dispatch.replay(env, res, case)
         ast, doc = unwire(case['ast']), dec_doc(case['doc'])
         model = ask_model(drv, [(ast, doc)])[0]
         f, info = evaluate_case(ast, doc, model)
@@ -734,6 +738,7 @@ def run(env, res):
         return res
     t0 = time.time()
     n_probe = fixed_battery(drv, res)
+    c04dispatch.run_section(env, res, __import__('sys').modules[__name__])
     if tier == 'quick':
         nproc, per, depth = 4, 4000, 4
     else:
